@@ -57,6 +57,11 @@ def generated_programs(rng, n):
     for i in range(n):
         src, _ = progs.generate(rng, max_depth=rng.choice([2, 3]))
         out.append((f"gen{i}", b(src)))
+    # the tour of rarely used constructs (type definitions, event functions, triggers also inside function literals, impl
+    # blocks, host imports): complete programs, their prefixes and single-token edits go through the same streams
+    from gen import families
+    for i, src in enumerate(families.tour() + families.tour_vm_only()):
+        out.append((f"tour{i}", b(src)))
     return out
 
 
